@@ -169,6 +169,8 @@ def gen_case(rnd, direction=None, n_max=12, klass='wellformed', fixed=None, exte
         if rnd.random() < 0.15:
             t['attrs']['team'] = rnd.choice(['x', 'y'])
         tasks.append(t)
+    if rnd.random() < 0.15:
+        tasks[rnd.randrange(n)]['id'] = 0          # 0 is a legal id (also for a summary task)
     ch = children_of(tasks)
     links = []
     for _ in range(rnd.randint(0, 2 * n)):
